@@ -742,8 +742,6 @@ package pokertable
 //@     && forall(k, 0, 10, k < len(St(te).GameState.Players) && !St(te).GameState.Players[k].Fold ==> St(te).GameState.Players[k].Combination != nil)
 //@     && forall(a, 0, 10, forall(b, 0, 10, a < b && b < len(Res(te).Players) ==> Res(te).Players[a].Idx != Res(te).Players[b].Idx))
 //@     && forall(a, 0, 10, forall(b, 0, 10, a < b && b < len(GPI(te)) ==> GPI(te)[a] != GPI(te)[b]))
-// the stack each entry started the hand with is still the player's bankroll (no top-up while the hand ran)
-//@ spec StacksInSync(te) = forall(k, 0, 10, k < len(GPI(te)) ==> St(te).GameState.Players[k].Bankroll == PS(te)[GPI(te)[k]].Bankroll)
 //@ spec isHandEntry(te, i) = exists(k, 0, 10, k < len(GPI(te)) && GPI(te)[k] == i)
 
 // ---- labels and next-big-blind order (C06) --------------------------------------------------------
@@ -787,11 +785,11 @@ package pokertable
 //@ spec resPlayer(te, r) = PS(te)[GPI(te)[resIdx(te, r)]]
 //@ spec showdownClear(te) = forall(i, 0, 10, i < len(PS(te)) ==> !PS(te)[i].GameStatistics.IsShowdownWinning && !PS(te)[i].GameStatistics.ShowdownWinningChance)
 
-// the same hand invariant restated per result entry (implied by ResultOK, StacksInSync and TableWF because result
+// the same hand invariant restated per result entry (implied by ResultOK and TableWF because result
 // indexes, hand entries and players are each pairwise distinct; stated redundantly so that no case split is needed)
 //@ spec ResultFacts(te) = forall(a, 0, 10, forall(b, 0, 10, a < b && b < len(Res(te).Players) ==> resPlayer(te, a) != resPlayer(te, b)))
 //@     && forall(r, 0, 10, r < len(Res(te).Players) ==> resPlayer(te, r) != nil && exists(i, 0, 10, i < len(PS(te)) && PS(te)[i] == resPlayer(te, r) && isHandEntry(te, i))
-//@           && St(te).GameState.Players[resIdx(te, r)].Bankroll == resPlayer(te, r).Bankroll && St(te).GameState.Players[resIdx(te, r)] != nil
+//@           && St(te).GameState.Players[resIdx(te, r)] != nil
 //@           && 0 <= GPI(te)[resIdx(te, r)] && GPI(te)[resIdx(te, r)] < len(PS(te)))
 //@     && forall(r, 0, 10, forall(i, 0, 10, r < len(Res(te).Players) && i < len(PS(te)) && !isHandEntry(te, i) ==> resPlayer(te, r) != PS(te)[i]))
 
@@ -800,7 +798,7 @@ package pokertable
 //@   returns alive
 //@   config M 2..10 quick 6..6 : te.table.Meta.TableMaxSeatCount = M
 //@   requires ResultFacts(te) && len(SeatMap(te)) == MaxSeats(te) && -1 <= te.sm.BBSeatID && te.sm.BBSeatID < MaxSeats(te)
-//@   requires TableWF(te) && HandShape(te) && ResultOK(te) && StacksInSync(te) && StatsInv(te) && showdownClear(te) && ref(te.sm) != 0 && typeis(te.sm, "*seat_manager.seatManager")
+//@   requires TableWF(te) && HandShape(te) && ResultOK(te) && StatsInv(te) && showdownClear(te) && ref(te.sm) != 0 && typeis(te.sm, "*seat_manager.seatManager")
 //@   modifies St(te).Status, St(te).NextBBOrderPlayerIDs, forall(i, 0, 10, PS(te)[i].Bankroll), forall(i, 0, 10, PS(te)[i].GameStatistics.ShowdownWinningChance),
 //@            forall(i, 0, 10, PS(te)[i].GameStatistics.IsShowdownWinning), te.table.UpdateAt, te.table.UpdateSerial, log
 //@   assume at call Rank).GetWinners : winners-are-contributors: 0 <= len(result0) && len(result0) <= 10 && forall(j, 0, 10, j < len(result0) ==> 0 <= result0[j] && result0[j] < len(GPI(te)))
